@@ -126,6 +126,17 @@ Section Ops.
       + rewrite !Host.small_testbit_high; try exact Hk; [reflexivity|apply normal_nthN; exact Hn|apply normal_nthN; apply normal_spec_insert].
     - unfold nthN. rewrite !nth_overflow; [reflexivity|unfold blen in Hjb; lia|rewrite length_spec_insert; unfold blen in Hjb; lia].
   Qed.
+  (* a header field is not affected by an update behind the header *)
+  Lemma ref_get_upd_far name b a xs : name_ok s name = true -> sp_hdr_len s <= a -> a + N.of_nat (List.length xs) <= blen b ->
+    ref_get s name (upd b a xs) = ref_get s name b.
+  Proof.
+    intros Hok Ha Hl. destruct (name_ok_field name Hok) as [f [? [? [? [? [? [? [Ef [Hf _]]]]]]]]].
+    unfold ref_get. rewrite Ef. apply spec_extract_ext. intros i Hi.
+    unfold bit_at. rewrite byte_at_upd by exact Hl. pose proof (field_inside s f Hs Hf).
+    replace ((a <=? i / 8) && (i / 8 <? a + N.of_nat (List.length xs))) with false; [reflexivity|].
+    symmetry. apply andb_false_iff. left. apply N.leb_gt. apply N.div_lt_upper_bound; lia.
+  Qed.
+
   Definition ref_covers (name:string) (i:N) : bool :=
     match find_sfield (sp_fields s) name with Some f => covers f i | None => false end.
   Lemma bit_ref_set_outside name v b i : ref_covers name i = false -> bit_at (ref_set s name v b) i = bit_at b i.
